@@ -64,6 +64,11 @@ func (d *driver) imgNew(kind, fill int, seed, flags uint32) (string, int) {
 }
 
 func (d *driver) imgCall(method int, src []byte, ri int, closed bool, pos uint64, pixfill int) imgObs {
+	return d.imgCallRestart(method, src, ri, closed, pos, pixfill, 0, 0)
+}
+
+// imgCallRestart: index and ioPos are the arguments of restart_frame (method 3).
+func (d *driver) imgCallRestart(method int, src []byte, ri int, closed bool, pos uint64, pixfill int, index, ioPos uint64) imgObs {
 	d.w8('J')
 	d.w8(uint8(method))
 	d.w32(uint32(len(src)))
@@ -76,6 +81,10 @@ func (d *driver) imgCall(method int, src []byte, ri int, closed bool, pos uint64
 	}
 	d.w64(pos)
 	d.w8(uint8(pixfill))
+	if method == 3 {
+		d.w64(index)
+		d.w64(ioPos)
+	}
 	d.flush('J')
 	var o imgObs
 	o.status = d.rstatus()
@@ -648,5 +657,102 @@ func runC07Images(t *sim.Tape, opt sim.RunOpt) *sim.Outcome {
 		}
 	}
 	o.Probe("image_pixels_equal_original")
+	return o
+}
+
+// ---- C09: one image and one delivery schedule across memory / flag / CPU-path variants ----
+
+func runC09Images(t *sim.Tape, opt sim.RunOpt) *sim.Outcome {
+	o := &sim.Outcome{}
+	f := drawImage(t, opt.Extra["repo"], false)
+	damaged := false
+	if t.Chance(1, 3) {
+		damageImage(t, f, o)
+		damaged = true
+	}
+	schedSeed := t.Draw(1 << 30)
+	mkSched := func() *imgSched { return drawImgSched(sim.NewTape(uint64(schedSeed)), len(f.data)) }
+	run := func(build string, setup objSetup, what string, verbose bool) *imgResult {
+		var r *imgResult
+		guard(o, func() string { return what }, func() {
+			r = runImage(getDriver(opt, build), f, mkSched(), setup, verbose)
+		})
+		return r
+	}
+	baseDesc := fmt.Sprintf("%s image decoder; file: %s (%d bytes); schedule seed %d", imgNames[f.kind], f.desc, len(f.data), schedSeed)
+	o.Sample = baseDesc
+	fp := sim.NewFP()
+	fp.AddStr(baseDesc)
+	o.FP = fp.Sum()
+	o.Nontrivial = true
+	ref := run("asan", objSetup{fill: 0, flags: initDefault, fresh: true}, baseDesc+" [base: asan build, zeroed memory, default flags]", false)
+	if ref == nil {
+		return o
+	}
+	imgProbes(o, f, ref)
+	builds := []string{"asan", "asan_nosimd", "plain", "plain_nosimd"}
+	n := 3 + t.Draw(3)
+	for i := 0; i < n; i++ {
+		build := builds[t.Draw(len(builds))]
+		setup := objSetup{fill: t.Draw(3), dstFill: t.Draw(3), seed: uint32(t.Draw(1 << 20)), fresh: true}
+		switch t.Pick(2, 1, 2) {
+		case 1:
+			setup.fill, setup.flags = 0, initAlreadyZeroed
+		case 2:
+			setup.flags = initLeaveBuffersUninit
+		}
+		if i == 0 {
+			build, setup = "asan_nosimd", objSetup{fill: 0, flags: initDefault, fresh: true}
+		}
+		cpuPath := strings.HasSuffix(build, "_nosimd")
+		if cpuPath && damaged && imgNames[f.kind] == "jpeg" {
+			// The documented exception: the two inverse-DCT variants need only
+			// agree on blocks an encoder can produce.
+			o.Probe("variant_skipped_jpeg_idct_exception")
+			continue
+		}
+		where := fmt.Sprintf("%s; base (asan, zeroed, default flags) vs variant (build %s, object pre-fill %d, pixel pre-fill %d, flags %#x)", baseDesc, build, setup.fill, setup.dstFill, setup.flags)
+		got := run(build, setup, where, opt.Verbose && i == 1)
+		if got == nil {
+			return o
+		}
+		o.Steps += int64(got.calls)
+		o.Probe("variant_build_" + build)
+		o.Probe(fmt.Sprintf("variant_flags_%#x", setup.flags))
+		kind := "memory_or_flags"
+		if cpuPath {
+			kind = "cpu_path"
+		}
+		key := func(class string) string { return class + ":" + imgNames[f.kind] + ":" + kind }
+		switch {
+		case got.initStatus != ref.initStatus:
+			o.Fail("variant_changes_init_status", key("variant_changes_init_status"), "initialize returned %q vs %q; %s", got.initStatus, ref.initStatus, where)
+			return o
+		case got.complete != ref.complete || got.giveUp != ref.giveUp || len(got.unjust) != len(ref.unjust):
+			o.Probe("variant_comparison_skipped")
+			continue
+		}
+		// The pixel buffer's pre-fill is part of what a partially decoded or
+		// partially covering frame shows, so pixels are compared only when the
+		// pre-fill is the base's.
+		cmp := *got
+		if setup.dstFill != 0 {
+			cmp.frames = append([]imgFrame(nil), got.frames...)
+			for k := range cmp.frames {
+				if k < len(ref.frames) {
+					cmp.frames[k].hash = ref.frames[k].hash
+				}
+			}
+		}
+		if ok, why := sameFrames(ref, &cmp); !ok {
+			o.Fail("variant_changes_output", key("variant_changes_output"), "%s; %s", why, where)
+			return o
+		}
+		if !isError(got.final) && got.consumed != ref.consumed {
+			o.Fail("variant_changes_consumed", key("variant_changes_consumed"), "consumed %d vs %d bytes (final status %q); %s", got.consumed, ref.consumed, got.final, where)
+			return o
+		}
+	}
+	o.Probe("image_variants_agree")
 	return o
 }
